@@ -627,10 +627,11 @@ class SpanNear2(SpanQuery):
                     # Use a binary search to find the first position we should
                     # start looking for possible matches
                     if ordered:
-                        start = aspan.start
+                        j = bisect_spans(bspans, aspan.start)
                     else:
-                        start = max(0, aspan.start - slop)
-                    j = bisect_spans(bspans, start)
+                        # A span that starts further back than the slop can
+                        # still end within it, so look at all of them
+                        j = 0
 
                     while j < len(bspans):
                         bspan = bspans[j]
